@@ -53,6 +53,17 @@ class _Sub(ast.NodeTransformer):
                 return acopy(self.env[k])
         return self.generic_visit(n)
 
+    def visit_Subscript(self, n):
+        self.generic_visit(n)
+        # (a, b)[0] is a
+        if isinstance(n.ctx, ast.Load) and isinstance(
+                n.value, ast.Tuple) and isinstance(
+                    n.slice, ast.Constant) and type(n.slice.value) is int \
+                and 0 <= n.slice.value < len(n.value.elts) and not any(
+                    isinstance(x, ast.Starred) for x in n.value.elts):
+            return n.value.elts[n.slice.value]
+        return n
+
     def visit_Lambda(self, n):
         return n
 
